@@ -1,7 +1,7 @@
 CONFIG = dict(
-    coqfiles=["Props/C04.v", "Props/C04B.v", "Props/C04P.v", "Props/C04A.v"],
+    coqfiles=["Props/C04.v", "Props/C04B.v", "Props/C04P.v", "Props/C04A.v", "Props/C07D.v"],
     n_quick=1500, n_thorough=60000, workers_quick=8,
-    sub=["C04P", "C04A", "C04B"],
+    sub=["C04P", "C04A", "C04B", "C04D"],
     rule="random store geometries (block size 16-64, sector 1/4/16, old 0-3, current 0-3, new 1-3, immutable and mutable growth, in-memory or block-device allocator with 1-3 spare blocks, "
          "flat keys with/without instance or hierarchical, validating CAS or raw read factory) x schedules of 15-45 (thorough: 20-100) atomic steps: uploads fed chunk by chunk through a gated source "
          "(wrong/short/long content, source failures), readers held open, existence checks, composite reads with a gated slicer; non-trivial = a successful read plus at least one of: "
